@@ -25,9 +25,10 @@ FEATURES=""; [ "$PROP" = "C29" ] && FEATURES="--features vectors"
 if [ -x "$H/pre/$bin.sh" ]; then
   mkdir -p "$VR/target"
   [ -d /verif/target/repo-bins ] && rsync -a /verif/target/repo-bins "$VR/target/" 2>/dev/null
-  VERIF_ROOT="$VR" VERIF_REPO="$WT" "$H/pre/$bin.sh" "$TIER" >"$VR/pre.log" 2>&1 || { echo "PRE-BUILD FAILED"; tail -20 "$VR/pre.log"; exit 2; }
+  VERIF_ROOT="$VR" VERIF_REPO="$WT" VERIF_HARNESS="$H" "$H/pre/$bin.sh" "$TIER" >"$VR/pre.log" 2>&1 || { echo "PRE-BUILD FAILED"; tail -20 "$VR/pre.log"; exit 2; }
 fi
 export VERIF_BIN_DIR="$VR/target/repo-bins/release"
+export VERIF_HARNESS="$H"
 VERIF_ROOT="$VR" VERIF_REPO="$WT" "$H/target/verif/$bin" "$TIER" "$@"
 rc=$?
 if [ -n "${MUTANT_SHOW_COUNTERS:-}" ] && [ -f "$VR/evidence/$PROP.json" ]; then
